@@ -366,8 +366,10 @@ def _different_value(org, expr, at, wanted) -> bool | None:
     # depends on everything the composite was built from, which says nothing about the one component that is read
     called = {id(c.func) for c in ast.walk(expr) if isinstance(c, ast.Call)}
     for x in ast.walk(expr):
-        if isinstance(x, (ast.Attribute, ast.Subscript)) and id(x) not in called and isinstance(x.value, (ast.Name, ast.Attribute, ast.Subscript, ast.Call)):
-            return None
+        if isinstance(x, ast.Attribute) and id(x) not in called and x.attr not in ("at", "T", "real", "shape", "dtype"):
+            return None       # `rec.next_obs`
+        if isinstance(x, ast.Subscript) and isinstance(x.slice, ast.Constant) and not (isinstance(x.value, ast.Attribute) and x.value.attr == "at"):
+            return None       # `result[0]`, `info["final_observation"]`
     d = org.deps(expr, at)
     if any(x[0] == "unknown" for x in d):
         return None
